@@ -47,6 +47,7 @@ fn update_emissions_ix(s: &Scen, b: usize, signer: Pubkey, mint: Pubkey, funding
 pub fn run(rng: &mut Rng, n: usize, rep: &mut Report) {
     // the permissionless migrate_curve on frozen banks (shared with the C18 monitor; here only the freeze clause is judged)
     crate::mon_c18::migrate_block(rng, (n / 40).max(6), rep, true);
+    metadata_block(rng, (n / 60).max(3), rep);
     run_with(rng, n, rep, &mut None)
 }
 
@@ -356,5 +357,85 @@ impl CloneWindow for MarginfiGroup {
         let mut g = MarginfiGroup::default();
         g.deleverage_withdraw_window_cache = self.deleverage_withdraw_window_cache;
         g
+    }
+}
+
+
+/// "the metadata admin only metadata": the REAL init_bank_metadata (PDA really `init`ed) and write_bank_metadata through
+/// dispatch, by every role: only the group's metadata admin may write, a write changes nothing but the metadata account
+/// of THAT bank (bank, group and every other account byte-identical), over-long strings and another bank's metadata
+/// account are refused
+fn metadata_block(rng: &mut Rng, n: usize, rep: &mut Report) {
+    use anchor_lang::{InstructionData, ToAccountMetas};
+    for _ in 0..n {
+        let mut s = Scen::build(rng);
+        let meta_admin = s.w.add_wallet(1_000_000_000);
+        let other = s.w.add_wallet(1_000_000_000);
+        let g = s.group;
+        let gr = s.w.group(&g);
+        s.w.set_group_admins(&g, gr.emode_admin, gr.delegate_curve_admin, gr.delegate_limit_admin, gr.delegate_emissions_admin, gr.risk_admin, meta_admin);
+        let mut metas: Vec<Pubkey> = vec![];
+        for h in s.banks.clone().iter().take(2) {
+            let (mkey, _) = Pubkey::find_program_address(&[marginfi_type_crate::constants::METADATA_SEED.as_bytes(), h.bank.as_ref()], &marginfi::ID);
+            let ixn = solana_program::instruction::Instruction {
+                program_id: marginfi::ID,
+                accounts: marginfi::accounts::InitBankMetadata { bank: h.bank, fee_payer: other, metadata: mkey, system_program: solana_program::system_program::ID }.to_account_metas(None),
+                data: marginfi::instruction::InitBankMetadata {}.data(),
+            };
+            let bank_before = s.w.accounts.get(&h.bank).cloned();
+            if s.w.exec(&ixn).is_err() { rep.bump("metadata_init_failed"); return; }
+            if s.w.accounts.get(&h.bank).cloned() != bank_before {
+                rep.fail("init_bank_metadata changed the bank account".to_string());
+            }
+            metas.push(mkey);
+        }
+        let h = s.banks[0];
+        for _ in 0..8 {
+            rep.bump("cases");
+            let (who, signer) = match rng.below(5) { 0 | 1 => ("metadata-admin", meta_admin), 2 => ("group-admin", s.admin), 3 => ("risk-admin", gr.risk_admin), _ => ("stranger", other) };
+            let tlen = match rng.below(5) { 0 => 0usize, 1 => 64, 2 => 65, 3 => 1, _ => rng.below(64) as usize };
+            let dlen = match rng.below(5) { 0 => 0usize, 1 => 128, 2 => 129, 3 => 1, _ => rng.below(128) as usize };
+            let ticker: Option<Vec<u8>> = if rng.chance(3, 4) { Some((0..tlen).map(|i| b'A' + (i % 26) as u8).collect()) } else { None };
+            let description: Option<Vec<u8>> = if rng.chance(3, 4) { Some((0..dlen).map(|i| b'a' + (i % 26) as u8).collect()) } else { None };
+            let cross = rng.chance(1, 6); // another bank's metadata account
+            let mkey = if cross { metas[1] } else { metas[0] };
+            let ixn = solana_program::instruction::Instruction {
+                program_id: marginfi::ID,
+                accounts: marginfi::accounts::WriteBankMetadata { group: g, bank: h.bank, metadata_admin: signer, metadata: mkey }.to_account_metas(None),
+                data: marginfi::instruction::WriteBankMetadata { ticker: ticker.clone(), description: description.clone() }.data(),
+            };
+            let before = s.w.accounts.clone();
+            let r = s.w.exec(&ixn);
+            let desc = format!("write_bank_metadata by {} (ticker {:?} bytes, description {:?} bytes{})", who, ticker.as_ref().map(|v| v.len()), description.as_ref().map(|v| v.len()), if cross { ", ANOTHER bank's metadata account" } else { "" });
+            match r {
+                Err(_) => {
+                    rep.bump("metadata_refused");
+                    if s.w.accounts != before { rep.fail(format!("C08 a refused {} changed the account store", desc)); }
+                    let too_long = ticker.as_ref().map(|v| v.len() > 64).unwrap_or(false) || description.as_ref().map(|v| v.len() > 128).unwrap_or(false);
+                    if who == "metadata-admin" && !cross && !too_long {
+                        rep.fail(format!("the metadata admin's {} was refused", desc));
+                    }
+                }
+                Ok(()) => {
+                    rep.bump("metadata_written");
+                    if who != "metadata-admin" {
+                        rep.fail(format!("C08 {} ACCEPTED: only the group's metadata admin may write bank metadata", desc));
+                    }
+                    if cross {
+                        rep.fail(format!("C08 {} ACCEPTED: the metadata account belongs to another bank", desc));
+                    }
+                    // nothing but the metadata account of this bank (and lamports of nobody) changed
+                    for (k, a) in before.iter() {
+                        if *k != mkey && s.w.accounts.get(k) != Some(a) {
+                            rep.fail(format!("metadata-admin-changes-other-state: {} changed account {} (only the bank's metadata account may change)", desc, k));
+                        }
+                    }
+                    let too_long = ticker.as_ref().map(|v| v.len() > 64).unwrap_or(false) || description.as_ref().map(|v| v.len() > 128).unwrap_or(false);
+                    if too_long {
+                        rep.fail(format!("{} ACCEPTED although a string exceeds the field", desc));
+                    }
+                }
+            }
+        }
     }
 }
